@@ -98,6 +98,7 @@ def check(case):
             check_round(case, state)
         except PropertyViolation as v:
             raise PropertyViolation("after-second-inplace-update:" + v.bucket, "after a second in-place parameter update (back to the first values): " + v.message, v.detail)
+    sparse_history(case)
     if case.get("am3"):
         from qucumber.rbm import BinaryRBM
         new = BinaryRBM(case["n"], len(case["am3"]["c"]), gpu=False)
@@ -108,6 +109,34 @@ def check(case):
         except PropertyViolation as v:
             raise PropertyViolation("after-network-replaced:" + v.bucket, "after installing another amplitude network through the rbm_am setter: " + v.message, v.detail)
     return r
+
+
+def sparse_history(case):
+    """Histories in which every parameter set is evaluated through ONE entry point only, exactly once (the rounds above call every
+    entry point several times per parameter set, which refreshes - and so hides - state kept between calls): a fresh object per entry
+    point, parameter sets A -> B -> (weights of B, biases of A) -> A, one call after each update."""
+    if not case.get("am2") or case["n"] > 6:
+        return
+    n = case["n"]
+    V = R.bits(n)
+    mixed = {"W": case["am2"]["W"], "b": case["am"]["b"], "c": case["am"]["c"]}
+    seq = [("A", case["am"]), ("B", case["am2"]), ("weights of B with biases of A", mixed), ("A again", case["am"])]
+    refs = [torch.exp(R.log_marg(R.net_from_case(pset), V)) for _, pset in seq]
+    entry = {
+        "normalization": (lambda st_, sp: st_.normalization(sp).double().reshape(1), lambda pr: pr.sum().reshape(1)),
+        "probability": (lambda st_, sp: st_.probability(sp).double(), lambda pr: pr),
+        "psi": (lambda st_, sp: (R.lib_to_c(st_.psi(sp)).abs() ** 2), lambda pr: pr),
+        "amplitude": (lambda st_, sp: st_.amplitude(sp).double() ** 2, lambda pr: pr),
+    }
+    for name, (call, want) in entry.items():
+        state = build(case)
+        space = state.generate_hilbert_space()
+        for (label, pset), pr in zip(seq, refs):
+            gen.set_net(state.rbm_am, pset)
+            got = call(state, space)
+            require(close(got, want(pr), REF_RTOL), f"sparse-history:{name}",
+                    f"{name}() evaluated once per parameter set (history A -> B -> weights of B with biases of A -> A) is wrong for parameter set '{label}'",
+                    got=got.tolist()[:8], want=want(pr).tolist()[:8])
 
 
 def interleave_readonly(case, state):
